@@ -103,7 +103,7 @@ chk('C11', 'model_checking',
 chk('C12', 'model_checking',
     'Hyperedge.tla builds the abstract graph (junction nodes, one leaf per non-junction connector end, an edge per connector) from the projection recorded after registerHyperedgeForRerouting + processTransaction '
     'and after a follow-up transaction, and requires: one tree, leaves exactly the terminals the hyperedge was built with, no junction leaf, both ends of every connector attached, routes joining the positions of '
-    'the attached objects, reported new/deleted lists consistent with the live objects. Every snapshot after a processTransaction() is judged (the improver runs whether or not the hyperedge is registered). Scenarios are TLC-enumerated over two geometries: every set of 3..4 pin terminals of three shapes, and every set of 4..5 terminals around a junction that has shapes straight above and below it and two or three further along one line (shared paths, degree 4..5), x junction position x improvement options x follow-up; both kinds of registration: by root junction, and by a list of terminal ConnEnds (no junction or connector exists beforehand, the rerouter creates them).',
+    'the attached objects, reported new/deleted lists consistent with the live objects. Every snapshot after a processTransaction() is judged (the improver runs whether or not the hyperedge is registered). Scenarios are TLC-enumerated over two geometries: every set of 3..4 pin terminals of three shapes, and every set of 4..5 terminals around a junction that has shapes straight above and below it and two or three further along one line (shared paths, degree 4..5), x junction position x improvement options x follow-up (none, the shape of a terminal moved, an empty transaction, the shape of a terminal and every junction moved in one transaction); both kinds of registration: by root junction, and by a list of terminal ConnEnds (no junction or connector exists beforehand, the rerouter creates them).',
     'Orthogonal routing only (hyperedge rerouting is orthogonal). F12, F28 and F29 are known findings; F51 (terminal-list registration left every terminal end unattached) was repaired (fix: commit f673802).',
     'TLA+ declarative tree/terminal specification; TLC-enumerated scenarios replayed; record validation', '4/C12')
 
